@@ -53,6 +53,7 @@ pub trait Calc: AbsVal + 'static {
     const KEY: &'static str;
     const MANT: u32;
     fn zero() -> Self;
+    fn show(&self) -> String;
     /// registers are 1-based in events
     fn apply(regs: &[Self], ev: &Ev) -> Result<Out<Self>, String>;
 }
@@ -71,6 +72,9 @@ macro_rules! impl_calc {
             const MANT: u32 = $mant;
             fn zero() -> Self {
                 <$T as Zero>::zero()
+            }
+            fn show(&self) -> String {
+                format!("{}", self)
             }
             #[allow(clippy::redundant_clone)]
             fn apply(regs: &[Self], ev: &Ev) -> Result<Out<Self>, String> {
